@@ -85,19 +85,23 @@ def real_roundtrip(m):
         return r
     try:
         r["id2"] = K.identity_walk(m2)
+        r["book2"] = K.bookkeeping(m2)
         r["s2"] = irser.serialize(m2)
     except Exception as e:  # noqa
         r.update(stage="walk", exc=type(e).__name__)
     return r
 
 
-def failure_kind(r, s1, id1=None):
+def failure_kind(r, s1, id1=None, book1="skip"):
     if r["stage"] != "ok":
         return f"{r['stage']}:{r['exc']}"
     if r["s2"] != s1:
         return "structure-differs"
     if id1 is not None and r.get("id2") != id1:
         return "identity-differs"
+    if book1 is None and r.get("book2") is not None:
+        # the original has sane def-use information (and verifies), the re-read module does not
+        return "reread-bookkeeping:" + r["book2"]
     return None
 
 
@@ -128,6 +132,7 @@ def check(ctx):
         c["s1"] = irser.serialize(m)
         c["id1"] = K.identity_walk(m)
         c["verifies"] = K.ppci_verifies(m)
+        c["book1"] = K.bookkeeping(m)
         c["real"] = real_roundtrip(m)
         c["at"] = len(reqs)
         s1 = c["s1"]
@@ -144,7 +149,7 @@ def check(ctx):
     for c in cases:
         g, r = c["gen"], c["real"]
         if (len(runs_of) < lim and g is not None and g.entries and out[c["at"]] == "ok 1"
-                and failure_kind(r, c["s1"], c["id1"]) is None):
+                and failure_kind(r, c["s1"], c["id1"], c["book1"]) is None):
             runs = [(e, a) for e in g.entries if e.external_ok for a in K.irgen.gen_args(ctx.rng, e, 2)][:6]
             if runs:
                 runs_of[c["label"]] = runs
@@ -168,7 +173,7 @@ def check(ctx):
         ctx.count("in_fragment" if in_frag else "outside_fragment")
         for rs in reasons:
             ctx.count("reason_" + rs)
-        kind = failure_kind(r, s1, c["id1"])
+        kind = failure_kind(r, s1, c["id1"], c["book1"])
         ctx.count("real_" + (kind or "roundtrip-ok"))
         # what the Lean model of the CURRENT writer/reader predicts (None = the model does not cover it)
         if r["stage"] == "write":
